@@ -186,3 +186,29 @@ def fallback_differences(input_doc: dict, text: str) -> list[str]:
                 if len(diffs) > 6:
                     return diffs
     return diffs
+
+
+class _TooSlow(BaseException):
+    pass
+
+
+def decompiles_in_time(doc: dict, cpu_s: float = 5.0) -> bool:
+    """False if the ExplorerScript decompiler needs more than cpu_s of CPU for this routine set (path enumeration in
+    build_loops explodes for some jump-heavy sets: a pure-function pathology that would only turn into time-outs)."""
+    import signal
+
+    def on_alarm(signum, frame):
+        raise _TooSlow()
+
+    old = signal.signal(signal.SIGVTALRM, on_alarm)
+    signal.setitimer(signal.ITIMER_VIRTUAL, cpu_s)
+    try:
+        out = decompile_exps(__import__('copy').deepcopy(doc))
+        return out.get("raised") != "_TooSlow"
+    except _TooSlow:
+        return False
+    finally:
+        signal.setitimer(signal.ITIMER_VIRTUAL, 0)
+        signal.signal(signal.SIGVTALRM, old)
+
+
